@@ -30,7 +30,10 @@
 (*   sw        f: x | y | i | x+y | evi (switch evi(x, id)) | init         *)
 (*             (switch t := x + 1; t) | none (no tag) | bool (switch x < 2) *)
 (*             lay: clauses [ts: terms, ft: fallthrough, def: default]     *)
-(*   tsw       type switch on tab[c % 4] (int, string, bool, nil); f: bind | nobind *)
+(*   tsw       type switch on tab[c % 6] (int, string, bool, nil, D, E: two    *)
+(*             named types with a String method); f: bind | nobind;          *)
+(*             case terms 0..5 name these types, 6 is the interface          *)
+(*             { String() string } (D and E implement it), 7 is interface{}  *)
 (*   sel       select, f: d | rd1 | rd0 | r1 | sd1 | sd0 | sx1 | sx0 | rr | rc *)
 (*   brk, cnt  t: 0 = unlabelled, else the labelled target node            *)
 (*   goto      if g < GotoLim { g++; goto t }   (t: an earlier statement   *)
@@ -70,6 +73,9 @@ VARIABLES nodes, open, phase, auto, st, log, outcome, gc, lastJump, steps, ords,
 vars == <<nodes, open, phase, auto, st, log, outcome, gc, lastJump, steps, ords, gcat, gk, gw, fam, famr, tpls>>
 
 Loops == {"for3", "forc", "rng"}
+\* dynamic types matched by the case term v of a type switch: the first clause that lists a
+\* term matching the dynamic type is taken (Go specification, "Type switches")
+TMembers(v) == IF v = 6 THEN {4, 5} ELSE IF v = 7 THEN {0, 1, 2, 4, 5} ELSE {v}
 Breakables == Loops \cup {"sw", "tsw", "sel"}
 Jumps == {"brk", "cnt", "ret"}
 
@@ -400,8 +406,8 @@ ExecStmt(s, l, m, ord) ==
               IN IF j = 0 THEN Cfg(s, r.l)
                  ELSE Enter(Append(s, Ctl(m, env, 0, <<>>)), r.l, m, j, "b", <<>>, FALSE)
          [] nd.k = "tsw" ->
-              LET ty == Val(s, nd.c) % 4
-                  hits == {j \in 1..Len(nd.lay) : \E q \in 1..Len(nd.lay[j].ts) : nd.lay[j].ts[q].v = ty}
+              LET ty == Val(s, nd.c) % 6
+                  hits == {j \in 1..Len(nd.lay) : \E q \in 1..Len(nd.lay[j].ts) : ty \in TMembers(nd.lay[j].ts[q].v)}
                   j == IF hits # {} THEN CHOOSE j \in hits : \A h \in hits : j <= h ELSE DefaultOf(nd.lay)
               IN IF j = 0 THEN Cfg(s, l)
                  ELSE Enter(Append(s, Ctl(m, NoEnv, 0, <<>>)), l, m, j,
